@@ -481,6 +481,9 @@ func allPathsReturnNonNil(b *ssa.BasicBlock, seen map[*ssa.BasicBlock]bool) (boo
 			if isNilConst(last) {
 				return false, fmt.Sprintf("error path returns nil error in block %d", b.Index)
 			}
+			if knownNilAt(last, b) {
+				return false, fmt.Sprintf("error path in block %d returns %s, which is known to be nil there (it was tested earlier)", b.Index, describe(last))
+			}
 			// named result: `*t0 = X; rundefers; t = *t0; return t`
 			if u, ok := last.(*ssa.UnOp); ok && u.Op == token.MUL {
 				if al := allocOf(u.X); al != nil {
@@ -642,4 +645,14 @@ func returnsNilError(r *ssa.Return) bool {
 		return false // `return fmt.Errorf(...)` style
 	}
 	return true
+}
+
+// knownNilAt: value v was compared with nil and block b lies on the branch where it is nil.
+func knownNilAt(v ssa.Value, b *ssa.BasicBlock) bool {
+	for _, t := range nilTestsOf(v) {
+		if (t.onNil == b || t.onNil.Dominates(b)) && !(t.onErr == b || t.onErr.Dominates(b)) && len(t.onNil.Preds) == 1 {
+			return true
+		}
+	}
+	return false
 }
